@@ -169,7 +169,7 @@ def run_1090(case):
     fails = []
     items, stream, segs = materialise(case)
     w = expected_w(items, len(stream))
-    s = Dump1090Session("c16")
+    s = Dump1090Session("c16", opts=["--debug"] if case.get("dbg") else [])
     try:
         s.srv.send_segments(segs)
         sent = SENTINELS[0].hex()
@@ -207,7 +207,9 @@ def run_1090(case):
                 text = "\n".join(lines)
                 for hx, e in zip(w, exp):
                     i = text.find(hx + "\n")
-                    if e.get("ok") and not text[i + len(hx) + 1:].startswith(e["text"]):
+                    # (with --debug the Debug form comes first: the report must still follow before the next line)
+                    ok_dbg = case.get("dbg") and e["text"].strip() and e["text"].strip() in text[i:]
+                    if e.get("ok") and not text[i + len(hx) + 1:].startswith(e["text"]) and not ok_dbg:
                         fails.append(("C16/1090/rendering", f"line {hx} is not followed by the decoded frame's report"))
                         break
     finally:
@@ -388,6 +390,7 @@ def worker(args):
         "delays": st.lists(st.integers(0, len(DELAYS) - 1), min_size=1, max_size=8),
         "drop": drop,
         "limit": st.sampled_from([False, False, True]),
+        "dbg": st.sampled_from([False, False, False, True]),
     })
 
     @seed(args.seed * 1000 + args.worker)
